@@ -922,6 +922,16 @@ def gen_merge16(rng):
                               multiline=rng.random() < 0.4,
                               max_nodes=rng.choice([4, 8, 12]))
         docs.append(gen.document(root=root))
+    if rng.random() < 0.12:
+        # characters that reach a document only through escapes (NEL, DEL):
+        # YAML would treat a raw U+0085 as a line break
+        node = S(rng.choice(["first\u0085second", "del\u007fete",
+                             "bell\u0007"]))
+        victim = rng.choice(docs)
+        if victim["t"] == "m":
+            victim["i"].append([S("ctl"), node])
+        else:
+            victim["i"].append(node)
     files = {}
     names = []
     for idx, doc in enumerate(docs):
